@@ -158,6 +158,8 @@ def classify_transfer(src_contents, dst_contents, dst_cap, value, base):
     v_after = (R.measure(dst_contents, 'L') + f * R.measure(src_contents, 'L')) / cf.vol_prefix
     vq = cf.q * K * (len(src_contents) + len(dst_contents) + 2) * (
         1 + sum(abs(vol_per_stored(s)) for s in subs_of(src_contents, dst_contents)))
+    # the request quantum (e.g. 1e-10 g for a request by mass) seen as a volume arriving at the destination
+    vq += K * (rq / m) * R.measure(src_contents, 'L') / cf.vol_prefix
     if v_after > dst_cap * (1 + 1e-6) + vq:
         return 'infeasible', 'capacity', f, {'v_after': v_after, 'cap': dst_cap}
     if v_after > dst_cap * (1 - 1e-6) - vq:
@@ -413,6 +415,20 @@ class HContainerInit(Handler):
             M.count('ctor.empty_nested')
             return
         expect = M.take_expect('Container.__init__')
+        # argument validation (wrong types, empty name) is not what FEAS judges
+        pp_ = PP()
+        if not isinstance(name, str) or not name or not isinstance(max_volume, str):
+            M.count('ctor.unjudged_arguments')
+            return
+        if init is not None:
+            try:
+                ok_init = all(isinstance(e, (tuple, list)) and len(e) == 2 and isinstance(e[0], pp_.Substance)
+                              and isinstance(e[1], str) for e in init)
+            except TypeError:
+                ok_init = False
+            if not ok_init:
+                M.count('ctor.unjudged_arguments')
+                return
         cf = R.cfg()
         # reference reading
         try:
